@@ -23,7 +23,10 @@ Shapes == <<
   [name |-> "overlap",    args |-> <<A(1, 1, R, 2), A(R, 1, R, 2)>>],
   [name |-> "wholecols",  args |-> <<[area |-> <<1, 1, R, 2>>, spell |-> "wcols"]>>],
   [name |-> "scalars",    args |-> <<[lit |-> 40], [lit |-> 10]>>],
-  [name |-> "lastrow",    args |-> <<A(R, 1, R, 2)>>] >>
+  [name |-> "lastrow",    args |-> <<A(R, 1, R, 2)>>],
+  [name |-> "scalarfirst", args |-> <<[lit |-> 40], A(1, 1, R, 2)>>],
+  [name |-> "cellfirst",  args |-> <<[area |-> <<1, 1, 1, 1>>, spell |-> "cell"], A(1, 2, R, 2)>>],
+  [name |-> "areascalararea", args |-> <<A(1, 1, 1, 2), [lit |-> 10], A(R, 1, R, 2)>>] >>
 Single(sh) == Len(sh.args) = 1 /\ "area" \in DOMAIN sh.args[1] /\ sh.args[1].spell = "area"
 Row(blk) == [i \in 1..Len(Shapes) |-> LET f == Folds(Shapes[i].args, blk) IN
                [s |-> f.sum4, n |-> f.count, lo |-> f.min4, hi |-> f.max4,
